@@ -4,6 +4,7 @@ import (
 	"context"
 	"fmt"
 	"testing"
+	"time"
 
 	"pgregory.net/rapid"
 
@@ -23,6 +24,8 @@ type C04Pub struct {
 	Type int  `json:"type"`
 	ID   int  `json:"id"`
 	Dead bool `json:"dead,omitempty"` // context cancelled before PublishContext is called
+	// Expired (with Dead): the context is dead because its deadline has passed (Err() is DeadlineExceeded, not Canceled)
+	Expired bool `json:"expired,omitempty"`
 	Bg   bool `json:"bg,omitempty"`   // use Publish (background context) instead of PublishContext
 	Mid  bool `json:"mid,omitempty"`  // (only with a canceller) the canceller cancels this publish's context before any other handler's turn
 }
@@ -39,6 +42,12 @@ type C04Scenario struct {
 	// Panics: every Once handler panics at the end of its (single) invocation; the bus recovers it, and the
 	// handler stays used up - for concurrent publishers that took their snapshot before, too.
 	Panics bool `json:"panics,omitempty"`
+	// ShareOpts: the option values (Once(), Async(), Sequential()) are created once and reused by all subscriptions
+	ShareOpts bool `json:"share_opts,omitempty"`
+	// SelfUnsub: an extra Once handler with a function of its own, subscribed before all others on the first
+	// registration's type, unsubscribes itself from inside its invocation. It is gone afterwards either way;
+	// the other Once handlers fired by the same publish must still be retired.
+	SelfUnsub bool `json:"self_unsub,omitempty"`
 }
 
 func genC04(rt *rapid.T) core.Scenario {
@@ -78,6 +87,9 @@ func genC04(rt *rapid.T) core.Scenario {
 				Dead: rapid.IntRange(0, 2).Draw(rt, "dead") == 2,
 				Bg:   rapid.Bool().Draw(rt, "bg"),
 			})
+			if l[len(l)-1].Dead {
+				l[len(l)-1].Expired = rapid.Bool().Draw(rt, "expired")
+			}
 		}
 		sc.Pubs = append(sc.Pubs, l)
 	}
@@ -93,6 +105,8 @@ func genC04(rt *rapid.T) core.Scenario {
 		}
 	}
 	sc.Panics = rapid.IntRange(0, 3).Draw(rt, "panics") == 3
+	sc.ShareOpts = rapid.IntRange(0, 2).Draw(rt, "shareOpts") == 2
+	sc.SelfUnsub = rapid.IntRange(0, 3).Draw(rt, "selfUnsub") == 3
 	sc.Tape = core.DrawTape(rt, 300)
 	return sc
 }
@@ -106,10 +120,20 @@ func (sc *C04Scenario) Execute(t *testing.T) *core.Outcome {
 	out := &core.Outcome{}
 	var w *World
 	inv := map[int][]int{} // regKey -> event ids it was invoked with
+	selfUnsubRuns := 0
+	var selfUnsubErr error
 	body := func() {
 		w = NewWorld()
+		w.ShareOptions = sc.ShareOpts
 		cancelFn := map[int]context.CancelFunc{}
 		w.OnInvoke = func(ti, fn, uid int, ctx context.Context, id int) {
+			if uid == 9001 { // the self-unsubscribing Once handler
+				selfUnsubRuns++
+				if err := allTypes[ti].Unsub(w, fn); err != nil {
+					selfUnsubErr = err
+				}
+				return
+			}
 			if uid == 9000 { // the canceller
 				if c := cancelFn[id]; c != nil {
 					c()
@@ -125,6 +149,12 @@ func (sc *C04Scenario) Execute(t *testing.T) *core.Outcome {
 			w.Rec.Add("exit", k, id, "")
 			if sc.Panics && k < len(sc.Regs) && sc.Regs[k].Opts.Once && !simrt.Dying() {
 				panic(fmt.Sprintf("once handler %d panics", k))
+			}
+		}
+		if sc.SelfUnsub {
+			if err := w.SubscribeUID(sc.Regs[0].Type, numSites-2, 9001, SubOpts{Once: true}); err != nil {
+				out.HarnessErr = err.Error()
+				return
 			}
 		}
 		if sc.Canceller {
@@ -157,6 +187,10 @@ func (sc *C04Scenario) Execute(t *testing.T) *core.Outcome {
 						ctx, cancel := context.WithCancel(context.Background())
 						cancelFn[p.ID] = cancel
 						allTypes[p.Type].Pub(w, ctx, p.ID)
+					case p.Dead && p.Expired:
+						ctx, cancel := context.WithDeadline(context.Background(), time.Now().Add(-time.Second))
+						allTypes[p.Type].Pub(w, ctx, p.ID)
+						cancel()
 					case p.Dead:
 						ctx, cancel := context.WithCancel(context.Background())
 						cancel()
@@ -234,13 +268,25 @@ func (sc *C04Scenario) Execute(t *testing.T) *core.Outcome {
 		if sc.Canceller {
 			extra = 1
 		}
+		if selfUnsubRuns > 1 {
+			out.V("once-fired-twice", "the self-unsubscribing once handler ran %d times", selfUnsubRuns)
+		}
+		if selfUnsubErr != nil {
+			out.V("unsubscribe-refused", "a handler that unsubscribes itself while it is running got %v", selfUnsubErr)
+		}
+		selfLeft := func(ti int) int {
+			if sc.SelfUnsub && selfUnsubRuns == 0 && ti == sc.Regs[0].Type {
+				return 1 // not reached by a live publish so far: still registered (on the first registration's type)
+			}
+			return 0
+		}
 		seenT := map[int]bool{}
 		for _, r := range sc.Regs {
 			if seenT[r.Type] {
 				continue
 			}
 			seenT[r.Type] = true
-			if c := allTypes[r.Type].Count(w) - extra; c != expectCount[r.Type] {
+			if c := allTypes[r.Type].Count(w) - extra - selfLeft(r.Type); c != expectCount[r.Type] {
 				out.V("once-count-after-quiescence", "HandlerCount(E%02d)=%d after the concurrent phase, expected %d (ordinary handlers + once handlers that had no eligible publish; dead publishes in run: %d)", r.Type, c, expectCount[r.Type], dead)
 			}
 		}
@@ -285,10 +331,10 @@ func (sc *C04Scenario) Execute(t *testing.T) *core.Outcome {
 				continue
 			}
 			seenT[r.Type] = true
-			if c := allTypes[r.Type].Count(w) - extra; c != expectCount[r.Type] {
+			if c := allTypes[r.Type].Count(w) - extra - selfLeft(r.Type); c != expectCount[r.Type] {
 				out.V("once-count-final", "HandlerCount(E%02d)=%d at the end, expected %d", r.Type, c, expectCount[r.Type])
 			}
-			if h := allTypes[r.Type].Has(w); h != (expectCount[r.Type]+extra > 0) {
+			if h := allTypes[r.Type].Has(w); h != (expectCount[r.Type]+extra+selfLeft(r.Type) > 0) {
 				out.V("once-count-final", "HasHandlers(E%02d)=%v at the end, expected count %d", r.Type, h, expectCount[r.Type])
 			}
 		}
